@@ -1,0 +1,25 @@
+//go:build verif
+
+package simulation
+
+import (
+	"github.com/simimpact/srsim/pkg/engine/info"
+	"github.com/simimpact/srsim/pkg/key"
+)
+
+// Hooks for the verification harness (/verif); compiled only with -tags verif.
+
+// VerifSetSides sets the lists of living characters and enemies, which are otherwise only
+// filled by initialize/startBattle from a full configuration.
+func (sim *Simulation) VerifSetSides(chars, enemies []key.TargetID) {
+	sim.characters = append(sim.characters[:0], chars...)
+	sim.enemies = append(sim.enemies[:0], enemies...)
+}
+
+// VerifExecuteQueue runs the insert queue drain (executeQueue) for the given phase. stopped
+// reports that an exit condition ended the run inside the drain.
+func (sim *Simulation) VerifExecuteQueue(phase info.BattlePhase) (stopped bool, err error) {
+	cont := func(*Simulation) (stateFn, error) { return nil, nil }
+	next, err := sim.executeQueue(phase, cont)
+	return next == nil, err
+}
